@@ -143,7 +143,7 @@ def edits() -> st.SearchStrategy:
         st.sampled_from([["rel", -8], ["rel", 0], ["rel", 8], ["rel", 4], ["rel", 1], ["int", -8], ["frac", 17, 2], ["frac", 16, 2], ["bool", True], ["int", 8000]]).map(
             lambda e: {"s": "dir", "name": "extent", "expr": e}
         ),
-        st.sampled_from([["int", 1], ["bool", True]]).flatmap(lambda e: st.sampled_from(["union", "sealed", "deprecated", "print"]).map(lambda n: {"s": "dir", "name": n, "expr": e})),
+        st.sampled_from([["int", 1], ["bool", True], ["bool", False], ["int", 0], ["str", ""], ["str", "x"], ["frac", 0, 1], ["frac", 1, 3]]).flatmap(lambda e: st.sampled_from(["union", "sealed", "deprecated", "print"]).map(lambda n: {"s": "dir", "name": n, "expr": e})),
     )
     new_stmt = st.one_of(
         directive,
